@@ -1,8 +1,8 @@
 SPECIFICATION Spec
 CONSTANTS Kx = 2
-          Ky = 2
-          N = 2
-          W = 2
+          Ky = 1
+          N = 3
+          W = 3
 INVARIANT Recip
 INVARIANT HaloOK
 INVARIANT Symmetric
